@@ -193,13 +193,20 @@ def shrink_candidates(case):
 
 MANIFEST = {
     "level_text": (
-        "Machine-checked proof (Coq 8.16) about an executable Gallina model of draw_line and get_line_pts, for all "
-        "end points and all batches: the scalar loop emits the exact Bresenham sequence (end points, length, unit "
-        "steps, half-pixel bound: Spec.Lines.line_ok) and every block of the lock-step vectorised output equals the "
-        "scalar sequence of its own line (batch independence). The model is tied to the code by exact comparison of "
-        "complete outputs (write order of draw_line, all four arrays of get_line_pts) on every end-point pair of a "
-        "grid plus random batches, with the extracted model cross-checked against vm_compute; the verified checker "
-        "line_ok/batch_ok is also evaluated on the implementation's own output."),
+        "Machine-checked proof (Coq 8.16, closed under the global context) about the executable Gallina model of "
+        "draw_line and get_line_pts, for ALL end points and ALL batches: (1) C16_draw_line_correct - the scalar loop "
+        "terminates within its fuel and emits a sequence meeting the declarative LineSpec (first/last point = the end "
+        "points, length max(|di|,|dj|)+1, major coordinate advances by exactly one per point, minor coordinate within "
+        "half a pixel of the ideal segment and moving by 0 or one step towards the end; horizontal, vertical, exact "
+        "diagonal and zero-length lines included); (2) C16_line_ok_sound - the boolean checker line_ok that is also "
+        "run on the implementation's output implies LineSpec; (3) C16_vector_eq_scalar - for every batch, count/index "
+        "are the lengths and their exclusive cumulative sums and the block of every line of the lock-step vectorised "
+        "output equals the scalar sequence of that line alone (compaction invariant, last-write-wins scatter over "
+        "disjoint positions; independence of the other lines, of batch order and of the pass that handles the line); "
+        "(4) C16_batch_checker. The model is tied to the code by exact comparison of complete outputs (write order of "
+        "draw_line, all four arrays of get_line_pts) on every end-point pair of a grid plus random batches, with the "
+        "extracted model cross-checked against vm_compute; the verified checkers are evaluated on the "
+        "implementation's own output."),
     "level_note": (
         "Trusted: Coq kernel + vm_compute; extraction (ExtrOcamlBasic only) and the S-expression driver; the Python "
         "harness; NumPy scatter/compaction semantics as modelled (last write wins). The tie between model and code "
